@@ -9,6 +9,9 @@ A case (JSON):
   fresh_cells [number, ...]                                 Cell() objects made from scratch
   universes  [number, ...]                                  Universe(n) objects made from scratch; their pool ids
                                                             follow the universes created by reading the file
+  origins    {kind: [origin of each pool object that is not in the file]}: "scratch" | "deepcopy" (of a member: linked to a
+             hidden copy of the problem) | "qmember" / "qremoved" (is / was a member of a second problem) | "shallow"
+             (copy.copy of a member: linked to this problem, shares the member's nodes)
   ops        edit script over pool ids
 Geometry: ["s", x, side] | ["c", x] (#cell) | ["#", g] | ["&", l, r] | ["|", l, r];  x is a number in `cells`,
 a pool id in `ops`.
@@ -89,24 +92,88 @@ class World:
         self.pool["transform"] = list(problem.transforms)
         self.pool["universe"] = list(problem.universes)
         if case is not None:
+            import copy
+
             montepy = mp.montepy
+            # other problems: objects that are (or were) members there come in linked to them
+            # (one problem per object, so that their numbers cannot collide over there)
+            self.others = []
+
+            def other_problem():
+                self.others.append(montepy.MCNP_Problem("verif-c16-other-problem"))
+                return self.others[-1]
+            origins = case.get("origins", {})
+
+            def origin(kind, j):
+                l = origins.get(kind, [])
+                return l[j] if j < len(l) else "scratch"
+
+            def make(kind, j, build, qcoll, set_number, number):
+                """one pool object that is not in the file, made the way its origin says"""
+                how = origin(kind, j)
+                members = self.pool[kind][: {"surface": case["file_surfaces"], "material": case["file_materials"],
+                                             "transform": case["file_transforms"]}.get(kind, len(self.pool[kind]))]
+                if how in ("deepcopy", "shallow") and members:
+                    src = members[j % len(members)]
+                    obj = copy.deepcopy(src) if how == "deepcopy" else copy.copy(src)
+                    if how == "deepcopy":
+                        set_number(obj, number)  # bypasses the validator, which would ask the hidden copy of the problem
+                    return obj
+                obj = build()
+                if how in ("qmember", "qremoved"):
+                    coll = qcoll(other_problem())
+                    coll.append(obj)
+                    if how == "qremoved":
+                        coll.remove(obj)
+                return obj
+
+            def node_number(obj, n):
+                obj._number.value = n
+
             for i in range(case["file_transforms"], len(case["transforms"])):
-                self.pool["transform"].append(mp.data_from(f"tr{case['transforms'][i]} 0 0 {i}.5"))
+                n = case["transforms"][i]
+                self.pool["transform"].append(
+                    make("transform", i - case["file_transforms"], lambda n=n, i=i: mp.data_from(f"tr{n} 0 0 {i}.5"),
+                         lambda q: q.transforms, node_number, n))
             for i in range(case["file_surfaces"], len(case["surfaces"])):
                 num, shape, tr = case["surfaces"][i]
-                s = mp.surface_from(f"{num} PZ {shape}.5")
-                if tr is not None:
-                    s.transform = self.pool["transform"][tr]
+                s = make("surface", i - case["file_surfaces"], lambda num=num, shape=shape: mp.surface_from(f"{num} PZ {shape}.5"),
+                         lambda q: q.surfaces, node_number, num)
+                s._transform = self.pool["transform"][tr] if tr is not None else None
                 self.pool["surface"].append(s)
             for i in range(case["file_materials"], len(case["materials"])):
                 num, shape = case["materials"][i]
-                self.pool["material"].append(mp.data_from(f"m{num} 1001.80c 1.0 8016.80c {shape + 1}.0"))
-            for n in case["fresh_cells"]:
-                c = montepy.Cell()
-                c.number = n
+                self.pool["material"].append(
+                    make("material", i - case["file_materials"],
+                         lambda num=num, shape=shape: mp.data_from(f"m{num} 1001.80c 1.0 8016.80c {shape + 1}.0"),
+                         lambda q: q.materials, node_number, num))
+            for j, n in enumerate(case["fresh_cells"]):
+                def build_cell(n=n):
+                    c = montepy.Cell()
+                    c.number = n
+                    return c
+                how = origin("cell", j)
+                c = build_cell()
+                if how in ("qmember", "qremoved"):
+                    q = other_problem()
+                    q.cells.append(c)
+                    if how == "qremoved":
+                        q.cells.remove(c)
                 self.pool["cell"].append(c)
-            for n in case["universes"]:
-                self.pool["universe"].append(montepy.Universe(n))
+            loaded_u = list(self.pool["universe"])
+            for j, n in enumerate(case["universes"]):
+                how = origin("universe", j)
+                if how == "deepcopy" and loaded_u:
+                    u = copy.deepcopy(loaded_u[j % len(loaded_u)])
+                    u._number = n
+                else:
+                    u = montepy.Universe(n)
+                    if how in ("qmember", "qremoved"):
+                        q = other_problem()
+                        q.universes.append(u)
+                        if how == "qremoved":
+                            q.universes.remove(u)
+                self.pool["universe"].append(u)
         self.ident = {}
         for k in KINDS:
             for i, o in enumerate(self.pool[k]):
@@ -173,6 +240,12 @@ class World:
         return out_s, out_c
 
     # ---- observation (identity everywhere)
+    def link_of(self, o):
+        """identity of the link target: this problem, another problem, or nothing"""
+        if o._problem is self.p:
+            return "here"
+        return "other" if o._problem is not None else None
+
     def observe(self):
         p = self.p
         # universes made by the code itself after the load (push_to_cells run again) join the pool
@@ -190,7 +263,7 @@ class World:
             cells.append(
                 {
                     "num": c.number,
-                    "link": c._problem is p,
+                    "link": self.link_of(c),
                     "leaves_s": ls,
                     "leaves_c": lc,
                     "has_geom": c.geometry is not None,
@@ -199,22 +272,17 @@ class World:
                     "mat": self.idx(c.material, "material"),
                     "univ": self.idx(c.universe, "universe"),
                     "fill": self.idx(c.fill.universe, "universe"),
-                    "compl_by": [self.idx(d, "cell") for d in c.cells_complementing_this],
+                    "compl_by": "other" if self.link_of(c) == "other" else [self.idx(d, "cell") for d in c.cells_complementing_this],
                 }
             )
-        surfaces = [
-            {"num": s.number, "link": s._problem is p, "cells": [self.idx(c, "cell") for c in s.cells]}
-            for s in self.pool["surface"]
-        ]
-        materials = [
-            {"num": m.number, "link": m._problem is p, "cells": [self.idx(c, "cell") for c in m.cells]}
-            for m in self.pool["material"]
-        ]
-        universes = [
-            {"num": u.number, "link": u._problem is p, "cells": [self.idx(c, "cell") for c in u.cells]}
-            for u in self.pool["universe"]
-        ]
-        transforms = [{"num": t.number, "link": t._problem is p} for t in self.pool["transform"]]
+        def rev(o):
+            # an object that is linked to another problem answers for that problem: not comparable with the model
+            return "other" if self.link_of(o) == "other" else [self.idx(c, "cell") for c in o.cells]
+
+        surfaces = [{"num": s.number, "link": self.link_of(s), "cells": rev(s)} for s in self.pool["surface"]]
+        materials = [{"num": m.number, "link": self.link_of(m), "cells": rev(m)} for m in self.pool["material"]]
+        universes = [{"num": u.number, "link": self.link_of(u), "cells": rev(u)} for u in self.pool["universe"]]
+        transforms = [{"num": t.number, "link": self.link_of(t)} for t in self.pool["transform"]]
         colls = {"cell": p.cells, "surface": p.surfaces, "material": p.materials, "universe": p.universes, "transform": p.transforms}
         di = p.data_inputs
         return {
@@ -235,7 +303,13 @@ class World:
         """facts the oracle needs that are not part of the model comparison: live `==` classes and
         surface.transform, all by pool id"""
         S, M = self.pool["surface"], self.pool["material"]
+        raw = lambda objs, f: [[self.idx(c, "cell") for c in f(o)] for o in objs]  # noqa: E731
         return {
+            "rev_raw": {
+                "surface": raw(S, lambda o: o.cells), "material": raw(M, lambda o: o.cells),
+                "universe": raw(self.pool["universe"], lambda o: o.cells),
+                "cell": raw(self.pool["cell"], lambda o: o.cells_complementing_this),
+            },
             "seq": [[j for j, t in enumerate(S) if t is not s and s == t] for s in S],
             "meq": [[j for j, t in enumerate(M) if t is not m and m == t] for m in M],
             "strans": [self.idx(s.transform, "transform") for s in S],
@@ -295,6 +369,13 @@ class World:
             self.coll(op[1]).append(pool[op[1]][op[2]])
         elif name == "remove":
             self.coll(op[1]).remove(pool[op[1]][op[2]])
+        elif name == "extend":
+            self.coll(op[1]).extend([pool[op[1]][i] for i in op[2]])
+        elif name == "iadd":
+            c = self.coll(op[1])
+            c += [pool[op[1]][i] for i in op[2]]
+        elif name == "append_renumber":
+            self.coll(op[1]).append_renumber(pool[op[1]][op[2]])
         elif name == "set_materials":
             p.materials = [pool["material"][i] for i in op[1]]
         elif name == "set_cells":
@@ -344,9 +425,12 @@ def run_impl(case):
         for op in case["ops"]:
             signal.setitimer(signal.ITIMER_REAL, 60.0)  # generous: the machine may be heavily loaded
             dups = None
+            foreign_num = False
             try:
                 if op[0] == "reupdate":
                     dups = w.duplicate_map()
+                if op[0] == "set_num" and w.link_of(w.pool[op[1]][op[2]]) == "other":
+                    foreign_num = True  # the setter asks the OTHER problem's collection: not modelled
                 w.do(op)
                 out = "ok"
             except _Hang:
@@ -359,6 +443,8 @@ def run_impl(case):
             step = {"out": out}
             if dups is not None:
                 step["dups"] = dups
+            if foreign_num:
+                step["foreign_num"] = True
             if out == "hang":
                 res["steps"].append(step)
                 break
